@@ -257,6 +257,48 @@ Theorem C07_xml_token_scan_after_stop : forall x x1 o1 x2 o2, xt_ctx x = true ->
 Proof. exact xml_token_scan_after_stop. Qed.
 Print Assumptions C07_xml_token_scan_after_stop.
 
+(* the remaining Close / context clauses for the XML scanner on the token machine (every
+   interleaving of Scan's loop with a cancellation from another goroutine) *)
+Theorem C07_xml_token_stop_permanent : forall l x x' o, xtstep false l x = Some (x', o) ->
+  (xt_ctx x = true -> xt_ctx x' = true) /\ (xt_closed x = true -> xt_closed x' = true).
+Proof. exact xt_stop_permanent. Qed.
+Print Assumptions C07_xml_token_stop_permanent.
+
+Theorem C07_xml_token_err_precedence : forall x,
+  (xt_err x <> 0%Z -> xt_err x <> eEOF -> xt_err_value x = xt_err x) /\
+  (xt_err x = eEOF -> xt_err_value x = 0%Z) /\
+  (xt_err x = 0%Z -> xt_closed x = true -> xt_err_value x = eClosed) /\
+  (xt_err x = 0%Z -> xt_closed x = false -> xt_ctx x = true -> xt_err_value x = eCtx) /\
+  (xt_err x = 0%Z -> xt_closed x = false -> xt_ctx x = false -> xt_err_value x = 0%Z).
+Proof. exact xt_err_precedence. Qed.
+Print Assumptions C07_xml_token_err_precedence.
+
+Theorem C07_xml_token_recorded_error_sticky : forall toks sched l x' o, xt_wf toks = true ->
+  let x := fst (xtrun false sched (xtinit toks)) in
+  xtstep false l x = Some (x', o) -> xt_err x <> 0%Z -> xt_err x' = xt_err x.
+Proof. exact xt_recorded_error_sticky. Qed.
+Print Assumptions C07_xml_token_recorded_error_sticky.
+
+(* Close / cancel by the scanning goroutine leaves the machine stopped, and from a stopped state no
+   Scan ever succeeds again whatever the schedule *)
+Theorem C07_xml_token_close_stops : forall x x' o a, (a = CCloseCall \/ a = CCancel) ->
+  xtstep false (XLCall a) x = Some (x', o) -> xt_stopped x'.
+Proof. exact xt_close_stops. Qed.
+Print Assumptions C07_xml_token_close_stops.
+
+Theorem C07_xml_token_no_true_scan_after_stop : forall sched x, xt_stopped x ->
+  forallb (fun y => negb (ProofsXml.scan_true y)) (snd (xtrun false sched x)) = true.
+Proof. exact xt_no_true_scan_after_stop. Qed.
+Print Assumptions C07_xml_token_no_true_scan_after_stop.
+
+(* the Scan loop run to completion without interference has the outcome of the call-level machine:
+   the next object of the document, or the document's final error *)
+Theorem C07_xml_scan_loop_outcome : forall toks k t, xt_pc t = XCheck -> xt_ctx t = false -> xt_toks t = toks ->
+  2 * length toks + 2 <= k ->
+  scan_outcome toks t (fst (xtrun false (repeat XLStep k) t)) (snd (xtrun false (repeat XLStep k) t)).
+Proof. exact xt_scan_loop. Qed.
+Print Assumptions C07_xml_scan_loop_outcome.
+
 (* tightness of C07_bounded_read_ahead: one read after the cancel is reachable *)
 Example C07_rac_one_reachable :
   rac (fst (run (cfg_now 1 blocks5) [LApi CScan; LRd false; LApi CCancel3; LRd false] (init (cfg_now 1 blocks5)))) = 1.
